@@ -426,6 +426,8 @@ def sub_merge(case):
             obj = PoseTrajectory3D(positions_xyz=P.copy(), orientations_quat_wxyz=Q.copy(), timestamps=T.copy())
         else:
             obj = PoseTrajectory3D(poses_se3=rm.poses_from(P, Q), timestamps=T.copy())
+        for v in spec.get("pre", ()):
+            getattr(obj, v)   # which representations exist already must not matter
         trajs.append(obj)
         allT.append(T)
         allP.append(P)
@@ -441,6 +443,9 @@ def sub_merge(case):
         raise Mismatch("merged timestamps not sorted", clause="merge_sorted")
     mp = np.asarray(merged.positions_xyz)
     mq = np.asarray(merged.orientations_quat_wxyz)
+    mse3 = merged.poses_se3
+    if len(mse3) != len(T):
+        raise Mismatch("merged trajectory has %d pose matrices for %d poses" % (len(mse3), len(T)), clause="merge_count")
     lut = {tuple(p): i for i, p in enumerate(P.tolist())}
     used = set()
     for k in range(len(mt)):
@@ -455,6 +460,10 @@ def sub_merge(case):
             raise Mismatch("merged pose %d carries stamp %r, its own stamp is %r" % (k, float(mt[k]), float(T[i])), clause="merge_own_stamp")
         if min(float(np.abs(mq[k] - Q[i]).max()), float(np.abs(mq[k] + Q[i]).max())) > 1e-12:
             raise Mismatch("merged pose %d carries another pose's orientation" % k, clause="merge_own_orientation")
+        Mk = np.asarray(mse3[k])
+        if float(np.abs(Mk[:3, 3] - P[i]).max()) > 0 or float(np.abs(Mk[:3, :3] - rm.quat_to_R(Q[i])).max()) > 1e-12:
+            raise Mismatch("pose matrix %d of the merged trajectory (stamp %r) is not the pose that owns this stamp: matrix position %s, own position %s" % (
+                k, float(mt[k]), Mk[:3, 3].tolist(), P[i].tolist()), clause="merge_own_pose_se3")
     # relative order of each input preserved
     for k in range(len(case["trajs"])):
         sel = [j for j in range(len(mt)) if mp[j][0] == float(k)]
@@ -484,7 +493,8 @@ st_split = st.fixed_dictionaries({
     "t0": st.sampled_from([0.0, 1.5e9]), "thr": st_thr, "mode": st.sampled_from(["pq", "se3"]),
     "pre_history": st.sampled_from([[], [], ["read"], ["read", "downsample"], ["read", "downsample", "ids"], ["downsample"]])})
 st_merge = st.fixed_dictionaries({
-    "trajs": st.lists(st.fixed_dictionaries({"ks": st.lists(st.integers(0, 30), min_size=1, max_size=12), "mode": st.sampled_from(["pq", "se3"])}),
+    "trajs": st.lists(st.fixed_dictionaries({"ks": st.lists(st.integers(0, 30), min_size=1, max_size=12), "mode": st.sampled_from(["pq", "se3"]),
+                                                    "pre": st.lists(st.sampled_from(["positions_xyz", "orientations_quat_wxyz", "poses_se3"]), max_size=2, unique=True)}),
                       min_size=1, max_size=6),
     "t0": st.sampled_from([0.0, 1.5e9]), "unit": st.sampled_from([1.0, 0.1, 1e-3])})
 
@@ -502,3 +512,11 @@ SUBS = [
     Sub("split", sub_split, st_split, 2000, 80000, nontrivial=lambda c: True),
     Sub("merge", sub_merge, st_merge, 800, 30000, nontrivial=lambda c: len(c["trajs"]) >= 2),
 ]
+
+
+# ---- the same operations requested through evo_traj (--downsample / --motion_filter / --merge, with and without --ref) ----
+from vf.checks import c15 as _c15
+SUBS.append(Sub("cli_traj", _c15.sub_traj, _c15.make_st_case(
+    downsample=st.sampled_from([None, 2, 7, 100]), mf=st.sampled_from([None, [0.5, 5.0], [0.0, 0.0], [5.0, 20.0], [1.0, 400.0]]),
+    tf=st.none(), align_mode=st.just("none"), correct_scale=st.just(False), project=st.none()), 400, 10000,
+    nontrivial=lambda c: any(c["opts"].get(k) for k in ("downsample", "motion_filter", "merge")), shards_quick=4))
